@@ -421,3 +421,7 @@ V("C19-v-negative-index-shift-checked-silent", "C19", "silent", (DS, "        if
 V("C20-s-callback-list-aliased", "C20", "C20.3", (DS, "        elif isinstance(callback, (tuple,list)):\n            callback = list(callback)\n        else:\n            callback = [callback]", "        elif not isinstance(callback, (tuple, list)):\n            callback = [callback]"))
 
 V("C11-s-last-row-propagation", "C11", "C11.4", (ITY, "        else:\n            self.dState = timestep * D.ar_numpy.sum(self.stage_values * self.tableau_final[0, 1:], axis=-1)\n            self.final_rhs", "        elif self.is_implicit and self.tableau_intermediate[-1, 0] == 1.0:\n            self.dState = timestep * D.ar_numpy.sum(self.stage_values * self.tableau_intermediate[-1, 1:], axis=-1)\n            self.final_rhs = D.ar_numpy.copy(self.stage_values[..., -1])\n        else:\n            self.dState = timestep * D.ar_numpy.sum(self.stage_values * self.tableau_final[0, 1:], axis=-1)\n            self.final_rhs"))
+INTERP = "desolver/utilities/interpolation.py"
+V("C06-t-find-interval-cache", "C06", "C06.9", (DS, "        idx = min(deutil.search_bisection(self.t_eval, t), len(self.y_interpolants) - 1)\n", "        idx = min(deutil.search_bisection(self.t_eval, t), len(self.y_interpolants) - 1)\n        self._last_idx = idx\n"))
+V("C19-w-getitem-cache", "C19", "C19.7", (DS, "                nearest_idx = int(D.ar_numpy.argmin(D.ar_numpy.abs(self.t - index)))\n", "                nearest_idx = int(D.ar_numpy.argmin(D.ar_numpy.abs(self.t - index)))\n                self._nearest = nearest_idx\n"))
+V("C17-s-interp-cache", "C17", "C17.6", (INTERP, "        t2 = t ** 2\n", "        self._t_last = t\n        t2 = t ** 2\n"))
